@@ -1,16 +1,27 @@
 #!/bin/sh
 # usage: lib/mutant.sh <seeded-dir-or-patch> <Cxx> [tier]
-# Applies a seeded change to /repo, runs the property's check (evidence goes to a scratch dir), and reverts /repo.
+# Runs one property's check against a seeded change.  By default the change is applied to a scratch copy of /repo
+# (VERIF_REPO), so that nothing else running against /repo is disturbed; MUT_INPLACE=1 applies it to /repo itself
+# (git -C /repo apply ... ; git -C /repo checkout -- .) as the task brief describes.  Evidence goes to a scratch dir.
 set -u
 src="$1"; prop="$2"; tier="${3:-quick}"
 src=$(realpath "$src"); patch="$src"; [ -d "$src" ] && patch="$src/patch.diff"
 cd /verif
-if [ -n "$(git -C /repo status --porcelain --untracked-files=no)" ]; then echo "/repo is not clean"; exit 3; fi
-git -C /repo apply "$patch" || { echo "patch does not apply"; exit 3; }
 ev=$(mktemp -d)
-VERIF_EVIDENCE_DIR="$ev" ./check "$prop" "$tier" > "$ev/out.txt" 2>&1
-rc=$?
-git -C /repo checkout -- .
+if [ "${MUT_INPLACE:-0}" = 1 ]; then
+  if [ -n "$(git -C /repo status --porcelain --untracked-files=no)" ]; then echo "/repo is not clean"; exit 3; fi
+  git -C /repo apply "$patch" || { echo "patch does not apply"; exit 3; }
+  VERIF_EVIDENCE_DIR="$ev" ./check "$prop" "$tier" > "$ev/out.txt" 2>&1
+  rc=$?
+  git -C /repo checkout -- .
+else
+  copy=$(mktemp -d /tmp/mutrepo.XXXXXX)
+  git -C /repo archive HEAD | tar -x -C "$copy"
+  ( cd "$copy" && git init -q . && git apply "$patch" ) || { echo "patch does not apply"; rm -rf "$copy" "$ev"; exit 3; }
+  VERIF_REPO="$copy" VERIF_EVIDENCE_DIR="$ev" ./check "$prop" "$tier" > "$ev/out.txt" 2>&1
+  rc=$?
+  rm -rf "$copy"
+fi
 grep -E "^VIOLATION|^  signature|^INFRA" "$ev/out.txt" | head -${MUT_LINES:-12}
 tail -1 "$ev/out.txt"
 rm -rf "$ev"
